@@ -43,7 +43,9 @@ func genOp(r *rand.Rand, k histKinds) core.Op {
 			}
 		case 8:
 			if k.sp {
-				switch r.IntN(7) {
+				switch r.IntN(8) {
+				case 7:
+					return sOp("sp.rewrite", gen.Pick(r, []string{"x", "", "&", " ", "%41"}), gen.Pick(r, []string{"", "", "n", "="}))
 				case 0, 1:
 					return sOp("sp.append", gen.SPName(r), gen.SPString(r))
 				case 2:
@@ -105,6 +107,12 @@ func applyOp(u *url.Url, op core.Op) *url.Url {
 		u.SearchParams().SortAbsolute()
 	case "sp.iterate":
 		u.SearchParams().Iterate(func(*url.NameValuePair) {})
+	case "sp.rewrite":
+		// mutation through the pair pointers Iterate hands out (what the canonicalizer does)
+		u.SearchParams().Iterate(func(p *url.NameValuePair) {
+			p.Value += op.Arg(0)
+			p.Name = op.Arg(1) + p.Name
+		})
 	case "sp.get":
 		_ = u.SearchParams().Get(op.Arg(0))
 		_ = u.SearchParams().GetAll(op.Arg(0))
